@@ -33,9 +33,9 @@ type def struct {
 }
 
 const (
-	wgs84Text  = "+title=WGS 84 (long/lat) +proj=longlat +ellps=WGS84 +datum=WGS84 +units=degrees"
-	nad83Text  = "+title=NAD83 (long/lat) +proj=longlat +a=6378137.0 +b=6356752.31414036 +ellps=GRS80 +datum=NAD83 +units=degrees"
-	gmercText  = "+title=WGS 84 / Pseudo-Mercator +proj=merc +a=6378137 +b=6378137 +lat_ts=0.0 +lon_0=0.0 +x_0=0.0 +y_0=0 +k=1.0 +units=m +nadgrids=@null +no_defs"
+	wgs84Text = "+title=WGS 84 (long/lat) +proj=longlat +ellps=WGS84 +datum=WGS84 +units=degrees"
+	nad83Text = "+title=NAD83 (long/lat) +proj=longlat +a=6378137.0 +b=6356752.31414036 +ellps=GRS80 +datum=NAD83 +units=degrees"
+	gmercText = "+title=WGS 84 / Pseudo-Mercator +proj=merc +a=6378137 +b=6378137 +lat_ts=0.0 +lon_0=0.0 +x_0=0.0 +y_0=0 +k=1.0 +units=m +nadgrids=@null +no_defs"
 )
 
 var catalogue = []def{
@@ -282,14 +282,14 @@ type xform struct {
 }
 
 type run struct {
-	e      *engine
-	t      *tape.Tape
-	log    *core.Log
-	res    *core.Result
-	pool   []*proj.SR
-	pdef   []def
-	xf     []*xform
-	sched  core.Hasher
+	e          *engine
+	t          *tape.Tape
+	log        *core.Log
+	res        *core.Result
+	pool       []*proj.SR
+	pdef       []def
+	xf         []*xform
+	sched      core.Hasher
 	nontrivial bool
 }
 
